@@ -579,3 +579,92 @@ func sortStrings(s []string) {
 		}
 	}
 }
+
+// ---------------------------------------------------------------------------
+// R01.6 evaluation order of sub expressions (call by value, left to right)
+
+// evalOrder: for an AST node kind, field X has to be evaluated before field Y.
+var evalOrder = map[string][][2]string{
+	"Operate":      {{"A", "B"}},
+	"Let":          {{"Value", "Inner"}},
+	"If":           {{"Cond", "Then"}, {"Cond", "Else"}},
+	"TryCatch":     {{"Try", "Catch"}},
+	"Switch":       {{"SwitchValue", "CaseConst"}, {"SwitchValue", "Value"}, {"SwitchValue", "Default"}, {"CaseConst", "Value"}},
+	"Case":         {{"CaseConst", "Value"}},
+	"FunctionCall": {{"Func", "Args"}},
+	"MethodCall":   {{"Value", "Args"}},
+}
+
+func ruleR016(c *Ctx) {
+	a := c.genAnchors()
+	if len(a.missing) > 0 {
+		c.Undecided(strings.Join(a.missing, ","), token.NoPos, "anchors not found")
+		return
+	}
+	fwd := c.forwarders(a)
+	for _, gi := range c.generatorFuncs(a, fwd) {
+		info := gi.pkg.TypesInfo
+		gname := declName(gi.pkg, gi.decl)
+		// every literal: the child calls inside, by field
+		ast.Inspect(gi.decl.Body, func(n ast.Node) bool {
+			lit, ok := n.(*ast.FuncLit)
+			if !ok {
+				return true
+			}
+			type cc struct {
+				call  *ast.CallExpr
+				field string
+			}
+			var calls []cc
+			ast.Inspect(lit.Body, func(x ast.Node) bool {
+				if l2, ok := x.(*ast.FuncLit); ok && l2 != lit {
+					// callbacks (Iter idiom) belong to this literal's evaluation; nested ParserFunc literals do not
+					if a.isParserFuncLit(info, l2) {
+						return false
+					}
+				}
+				if call, ok := x.(*ast.CallExpr); ok {
+					if obj := gi.childObj(info, call.Fun); obj != nil && gi.field[obj] != "" {
+						calls = append(calls, cc{call, gi.field[obj]})
+					}
+				}
+				return true
+			})
+			if len(calls) < 2 {
+				return true
+			}
+			g := c.CFG(lit)
+			for i, x := range calls {
+				for j, y := range calls {
+					if i == j {
+						continue
+					}
+					kx, fx, _ := strings.Cut(x.field, ".")
+					ky, fy, _ := strings.Cut(y.field, ".")
+					if kx == "Case" {
+						kx = "Switch"
+					}
+					if ky == "Case" {
+						ky = "Switch"
+					}
+					if kx != ky {
+						continue
+					}
+					for _, pr := range evalOrder[kx] {
+						if pr[0] != fx || pr[1] != fy {
+							continue
+						}
+						key := fmt.Sprintf("%s#order:%s.%s<%s[%d]", gname, kx, fx, fy, ordinalIn(gi.decl, y.call, func(z ast.Node) bool { _, ok := z.(*ast.CallExpr); return ok }))
+						// calls inside a callback literal are positioned at the callback in the literal's CFG
+						if g.Dominates(x.call, y.call) {
+							c.OK(key, y.call.Pos(), "%s.%s is evaluated before %s.%s on every path", kx, fx, ky, fy)
+						} else {
+							c.Violation(key, y.call.Pos(), "%s.%s can be evaluated without %s.%s having been evaluated before: the reference semantics evaluates %s first (left to right, call by value); errors and effects of the two sub expressions are observed in the wrong order", ky, fy, kx, fx, fx)
+						}
+					}
+				}
+			}
+			return true
+		})
+	}
+}
